@@ -23,13 +23,30 @@ typedef struct S_class_tbb__detail__r1__threading_control tc_t;
 typedef struct S_class_tbb__detail__r1__observer_list olist_t;
 typedef struct S_class_tbb__detail__r1__observer_proxy oproxy_t;
 #include "c16_stubs.h"
+void* calloc(size_t, size_t);
+#ifndef VP_NATIVE
+/* the 16-byte struct copies of execution_data_ext in nested_arena_context go through symbolic dispatcher pointers; cbmc's
+   built-in memcpy model (array_replace on whole objects) exploded there (31 GB). Word-wise copy with the same meaning. */
+void* memcpy(void* d, const void* s, size_t n) {
+  if (n % 8 == 0) for (size_t i = 0; i < n / 8; i++) ((u64*)d)[i] = ((const u64*)s)[i];
+  else for (size_t i = 0; i < n; i++) ((u8*)d)[i] = ((const u8*)s)[i];
+  return d;
+}
+#endif
 
 #define NT 2
 #define NSL (NSLOTS < 2 ? 2 : NSLOTS)
 #define ARENA_MEM struct { struct S_class_tbb__detail__r1__mail_outbox mb[NSL]; arena_t a; struct S_class_tbb__detail__r1__arena_slot more[NSL - 1]; }
-static ARENA_MEM AMEM __attribute__((aligned(128)));      /* the arena being entered */
-static ARENA_MEM HMEM __attribute__((aligned(128)));      /* the threads' home arena */
-static disp_t DISP[NSL], HDISP[NSL], OUTER[NT];
+typedef ARENA_MEM amem_t;
+#ifdef TYPED_ARENA
+static amem_t AMEM_ __attribute__((aligned(128)));
+#define AMEMP (&AMEM_)
+#else
+static amem_t* AMEMP;                                     /* the arena being entered: zeroed heap storage (see main) */
+#endif
+#define AMEM (*AMEMP)
+static arena_t HOMEA __attribute__((aligned(128)));       /* the threads' home arena: only its address and slot addresses are used (never dereferenced on this path) */
+static disp_t *DISP, OUTER[NT];
 static td_t TDS[NT] __attribute__((aligned(128)));
 static u8 tail_dummy[64]; static u8 tc_dummy[64];
 #define TAIL ((oproxy_t*)tail_dummy)
@@ -104,12 +121,18 @@ void vp_returned(u32 tid) {
 int main(void) {
   VP_ASSERT(vp_sizeof_arena() == sizeof(arena_t) && vp_sizeof_slot() == sizeof(AMEM.more[0]) && vp_sizeof_outbox() == sizeof(AMEM.mb[0]) && vp_sizeof_td() == sizeof(td_t)
             && vp_sizeof_disp() == sizeof(disp_t) && sizeof(AMEM) == NSL * vp_sizeof_outbox() + vp_sizeof_arena() + (NSL - 1) * vp_sizeof_slot(), "generated struct layout differs from the C++ one");
+#ifndef TYPED_ARENA
+  /* untyped zeroed storage: stores through the symbolic slot / dispatcher pointers of the thread-mode encoding are cheap on
+     byte objects; on one big typed object cbmc expands each of them to every field (477 k SSA steps, out of memory) */
+  AMEMP = calloc(1, sizeof(amem_t)); __CPROVER_assume(AMEMP != 0);
+#endif
+  DISP = calloc(NSL, sizeof(disp_t)); __CPROVER_assume(DISP != 0);
   A = vp_arena_make((u8*)&AMEM, DISP, (tc_t*)tc_dummy, NSLOTS, NRES, TAIL);
-  HOME = vp_arena_make((u8*)&HMEM, HDISP, (tc_t*)tc_dummy, NSLOTS, NRES, 0);
+  HOME = &HOMEA;
   NS = vp_arena_num_slots(A);
   PRE = (unsigned)vp_nd_range(0, (1u << NSL) - 1);
   for (unsigned i = 0; i < NS; i++) { owner[i] = -1; if ((PRE >> i) & 1) vp_slot_force(A, i, 1); }
-  for (unsigned t = 0; t < NT; t++) { vp_td_setup(&TDS[t], &OUTER[t], HOME, (u16)t, (u32)vp_nd(), (u32)vp_nd()); vp_slot_force(HOME, t, 1); }
+  for (unsigned t = 0; t < NT; t++) { vp_td_setup(&TDS[t], &OUTER[t], HOME, (u16)t, (u32)vp_nd(), (u32)vp_nd()); }
   /* the slot hint used by occupy_free_slot is my_arena_index = the thread's index in its home arena (tid) */
   vp_thr_exec_a_start(A, &TDS[0], 0); vp_thr_exec_b_start(A, &TDS[1], 1);
   for (int r = 0; r < ROUNDS; r++) { VP_RUNT(vp_thr_exec_a, 0) VP_RUNT(vp_thr_exec_b, 1) }
